@@ -376,14 +376,19 @@ pub mod prelude {
         decreases s.len()
     {
         let p = s.subrange(0, k);
+        lemma_first_index_bounds(s, c);
         if k == 0 {
+            assert(p.len() == 0);
         } else if s[0] == c {
             assert(p[0] == c);
         } else {
             let t = s.subrange(1, s.len() as int);
             lemma_first_index_prefix(t, k - 1, c);
-            assert(p.subrange(1, p.len() as int) =~= t.subrange(0, k - 1));
+            let p1 = p.subrange(1, p.len() as int);
+            assert(p1 =~= t.subrange(0, k - 1));
             assert(p[0] != c);
+            assert(first_index_of(p, c) == 1 + first_index_of(p1, c));
+            assert(first_index_of(s, c) == 1 + first_index_of(t, c));
         }
     }
 
